@@ -96,9 +96,23 @@ fn apply<C: CI>(seq: &mut Seq<C>, m: &mut Vec<u8>, op: &Op, args: &Args<C>) -> O
             format!("extend({})", a.text(v))
         }
         Op::ExtTrait(v) => {
-            Extend::extend(seq, v.iter().map(|c| sym(*c)));
+            // the Extend trait, fed through iterators of varying size-hint shape (chosen by content)
+            let syms: Vec<C> = v.iter().map(|c| sym(*c)).collect();
+            let pick = v.iter().map(|c| *c as usize).sum::<usize>() % 7;
+            let mut k = 0usize;
+            let mut used = "exact";
+            iterator_shapes(&syms, |shape, it| {
+                if k == pick {
+                    Extend::extend(seq, it);
+                    used = shape;
+                }
+                k += 1;
+            });
+            if k <= pick {
+                Extend::extend(seq, syms.iter().copied());
+            }
             m.extend(v);
-            format!("Extend::extend({})", a.text(v))
+            format!("Extend::extend({} via {used})", a.text(v))
         }
         Op::Append(i) => {
             let (s, c) = args.get(*i);
@@ -136,7 +150,7 @@ fn apply<C: CI>(seq: &mut Seq<C>, m: &mut Vec<u8>, op: &Op, args: &Args<C>) -> O
             format!("remove(form{f} [{x},{y}))")
         }
         Op::Truncate(p, extra) => {
-            let t = pos(p, n) + extra;
+            let t = pos(p, n).saturating_add(*extra);
             seq.truncate(t);
             m.truncate(t);
             format!("truncate({t})")
@@ -196,6 +210,8 @@ fn small_ops(a: &model::Alphabet) -> Vec<Op> {
         Op::Truncate(Pos::Mid, 0),
         Op::Truncate(Pos::Len, 0),
         Op::Truncate(Pos::Len, 3),
+        Op::Truncate(Pos::Zero, usize::MAX / 2 + 1), // far beyond the length: a no-op on a list
+        Op::Truncate(Pos::Zero, usize::MAX / 8 + 2),
     ];
     for i in 0..3 {
         v.push(Op::Append(i));
@@ -304,14 +320,26 @@ fn random_history<C: CI>(ctx: &mut Ctx, steps: usize, tag: usize) {
         let pad = ctx.rng.below(noff);
         pool.items.push((Padded::<C>::new(&mut ctx.rng, pad, &c, 2), c));
     }
-    let start = ctx.rng.below(pw + 2);
+    // most histories oscillate around 1-4 word boundaries; every fifth one grows to 8-33 words
+    let target_words = if tag % 5 == 4 { [8usize, 9, 16, 33][(tag / 5) % 4] } else { 1 + tag % 4 };
+    let start = if tag % 5 == 4 && !ctx.lite { target_words * pw - 3 + ctx.rng.below(6) } else { ctx.rng.below(pw + 2) };
     let sc = rand_codes(&mut ctx.rng, a, start);
-    let mut seq = mk::<C>(&sc);
+    // start states differ in spare capacity: parsed, exact copy, pre-reserved
+    let mut seq = match tag % 3 {
+        0 => mk::<C>(&sc),
+        1 => mk::<C>(&sc)[..].to_owned(),
+        _ => {
+            let mut s = Seq::<C>::with_capacity(start + tag % 130);
+            for c in &sc {
+                s.push(C::try_from_bits(*c).unwrap());
+            }
+            s
+        }
+    };
     let mut m = sc.clone();
     let mut snaps: Vec<(Seq<C>, Vec<u8>, &'static str)> = Vec::new();
     let mut strs: Vec<(String, Vec<u8>)> = Vec::new();
     let mut log: Vec<String> = vec![format!("start {:?}", a.text(&sc))];
-    let target_words = 1 + tag % 4;
     let maxlen = if ctx.lite { pw + 4 } else { target_words * pw + pw / 2 };
     for step in 0..steps {
         if ctx.over() {
@@ -340,7 +368,7 @@ fn random_history<C: CI>(ctx: &mut Ctx, steps: usize, tag: usize) {
                 4 | 5 => Op::Append(arg),
                 6 => Op::Prepend(arg),
                 7 | 8 => Op::Insert(Pos::At(ctx.rng.below(n + 1)), arg),
-                9 => Op::Truncate(Pos::At(n), ctx.rng.below(3)), // n >= len: no-op
+                9 => Op::Truncate(Pos::At(n), if ctx.rng.chance(1, 4) { *ctx.rng.pick(&[usize::MAX / 2 + 1, usize::MAX / 4 + 1, usize::MAX / 8 + 5, usize::MAX - n]) } else { ctx.rng.below(3) }), // n >= len: no-op
                 10 => {
                     let x = ctx.rng.below(n + 1);
                     let y = ctx.rng.range(x, n);
@@ -444,6 +472,6 @@ fn run<C: CI>(ctx: &mut Ctx) {
 fn main() {
     run_main("C06", |ctx| {
         for_each_codec!(run, ctx);
-        ctx.note("rule", json!("history + executable Vec model. (a) bounded-exhaustive: ~46 concrete ops (push x2, extend x2, clear, truncate x4 incl. n>len, append/prepend/insert{0,mid,len} x 3 argument shapes {empty@1, 1 symbol@offset 1, 3 symbols straddling a word}, remove in 14 position/RangeBounds-form combinations incl. Bound tuples) from start lengths {0,1,W-1,W,W+1}: ALL histories of depth 1-2 for every codec, depth 3 for dna and miupac (thorough: all codecs); (b) random histories of 200 (thorough 2000) ops with lengths oscillating around 1-4 word boundaries, arguments = windows at random bit offsets of other sequences and of earlier clones, every RangeBounds form. After every step: len, symbols, bit length, raw image; display / == fresh parse / hash every step (exhaustive: last step) resp. every 8th (random). Snapshots (clone, slice.to_owned, String) re-verified at the end. Distinct = (codec, start, history index) resp. (codec, state-before, op)."));
+        ctx.note("rule", json!("history + executable Vec model. (a) bounded-exhaustive: ~46 concrete ops (push x2, extend x2, clear, truncate x6 incl. n>len and n so large that n*BITS overflows, append/prepend/insert{0,mid,len} x 3 argument shapes {empty@1, 1 symbol@offset 1, 3 symbols straddling a word}, remove in 14 position/RangeBounds-form combinations incl. Bound tuples) from start lengths {0,1,W-1,W,W+1}: ALL histories of depth 1-2 for every codec, depth 3 for dna and miupac (thorough: all codecs); (b) random histories of 200 (thorough 2000) ops with lengths oscillating around 1-4 word boundaries (every fifth history around 8, 9, 16 or 33 words), start states with exact / spare / pre-reserved capacity, Extend fed through iterators of seven size-hint shapes, arguments = windows at random bit offsets of other sequences and of earlier clones, every RangeBounds form. After every step: len, symbols, bit length, raw image; display / == fresh parse / hash every step (exhaustive: last step) resp. every 8th (random). Snapshots (clone, slice.to_owned, String) re-verified at the end. Distinct = (codec, start, history index) resp. (codec, state-before, op)."));
     });
 }
